@@ -2,7 +2,7 @@
 from __future__ import annotations
 
 import ast
-from typing import Any, Dict, List, Optional, Tuple
+from typing import Any, Dict, List, Optional, Set, Tuple
 
 from ..core import Ctx
 from ..interp import ALL, Dual, EnumVal, Event, Interp, LoopSummary, PathResult, State, Tup, View, as_view, NONE
@@ -548,6 +548,20 @@ def rule_split(ctx: Ctx, prog: Program) -> None:
                             adj = True
                         if it.scalar(r.state, l.pre_env[nm]) == lo:
                             first_ok = True
+                # (ii') the part moves with the domain: translating the split domain by t (lo, hi and the carried start all move by t) must
+                # translate the part's maximum by t -- the coefficients of those symbols in pmax sum to 1.  A maximum laid out in absolute
+                # coordinates (as if the domain started at 0) fails this for every domain that does not start at 0.
+                if isinstance(pmax, Aff):
+                    movers = [lo.single_atom(), hi.single_atom()]
+                    for nm in carried:
+                        pv = l.pre_env.get(nm)
+                        if isinstance(pv, (Aff, Dual)) and any(a_ in (lo.single_atom(), hi.single_atom()) for a_ in atoms_in(it.scalar(r.state, pv))):
+                            movers.append(("lv", nm, l.loop_id))
+                    cov = sum(pmax.coef(a_) for a_ in movers if a_ is not None)
+                    _v(ctx, fn, cov == 1, "translation: the part's maximum moves with the split domain", e,
+                       f"the maximum of a part ({show_val(pmax)}) does not move with the split domain (the symbols that shift with the domain have total "
+                       f"coefficient {cov}, expected 1): the parts are laid out as if the domain started at 0, so for any other minimum the last parts "
+                       "run past the declared maximum (values outside the domain are enumerated)")
                 _v(ctx, fn, adj, "adjacency: min of part i+1 = max of part i + 1", e,
                    "consecutive parts must be adjacent (next minimum = this maximum + 1): otherwise parts overlap or leave a gap")
                 _v(ctx, fn, first_ok, "first part starts at the domain minimum", e, "the first part must start at the minimum of the split domain")
@@ -646,7 +660,31 @@ def _copy_protocol(ctx: Ctx, prog: Program) -> None:
                 for t in (n.targets if isinstance(n, ast.Assign) else [n.target]):
                     if (isinstance(t, ast.Subscript) and ast.unparse(t.value) in aliases) or (isinstance(t, ast.Attribute) and ast.unparse(t.value) == "self"):
                         bad = n
-        if bad is None:
+        # a hand-written copy hook: every list-valued attribute of the model must be deep-copied, or the parts share it with the original
+        shared: List[str] = []
+        if name in ("__deepcopy__", "__copy__"):
+            init_ = m.classes.get("Problem", {}).get("__init__")
+            lists_ = set()
+            if init_ is not None:
+                for n in ast.walk(init_.node):
+                    tg = n.targets[0] if isinstance(n, ast.Assign) and len(n.targets) == 1 else n.target if isinstance(n, ast.AnnAssign) else None
+                    if isinstance(tg, ast.Attribute) and isinstance(tg.value, ast.Name) and tg.value.id == "self" and n.value is not None \
+                            and (isinstance(n.value, (ast.List, ast.ListComp, ast.Dict)) or (isinstance(n.value, ast.Name) and n.value.id.endswith("_lst"))):
+                        lists_.add(tg.attr)
+            deep = set()
+            for n in ast.walk(f.node):
+                if isinstance(n, ast.Assign) and len(n.targets) == 1 and isinstance(n.targets[0], ast.Attribute) and isinstance(n.value, ast.Call) \
+                        and ast.unparse(n.value.func) in ("copy.deepcopy", "deepcopy"):
+                    deep.add(n.targets[0].attr)
+            whole = any(isinstance(n, ast.Call) and ast.unparse(n.func) in ("copy.deepcopy", "deepcopy") and n.args and ast.unparse(n.args[0]) in ("self.__dict__", "vars(self)")
+                        for n in ast.walk(f.node))
+            if not whole:
+                shared = sorted(lists_ - deep)
+        if shared and bad is None:
+            ctx.violation("R-SPLIT", f.path, f"Problem.{name}", f"deepcopy:hook-shares:{shared[0]}", f.loc(),
+                          f"Problem.{name} replaces copy.deepcopy for the parts made by split and does not deep-copy {shared}: the parts and the original "
+                          "share those lists, so refining one part (adding a constraint) changes the original and every other part")
+        elif bad is None:
             ctx.ok("R-SPLIT", f"Problem.{name} does not modify the object it is asked to describe")
         else:
             ctx.violation("R-SPLIT", f.path, f"Problem.{name}", "original-untouched:copy-hook", f"{f.path}:{bad.lineno}",
@@ -809,6 +847,7 @@ def rule_optional_zero(ctx: Ctx, prog: Program) -> None:
             ann = ast.unparse(p.annotation) if p.annotation is not None else ""
             if ann.replace(" ", "") in ("Optional[int]", "int|None", "None|int", "Union[int,None]"):
                 opt_int.add(p.arg)
+        _element_truthiness(ctx, f, ps)
         if not opt_int:
             continue
         # the parameter may be re-bound after its 'is None' resolution; only uses before the first assignment to it are concerned
@@ -832,6 +871,57 @@ def rule_optional_zero(ctx: Ctx, prog: Program) -> None:
             n += 1
             ctx.ok("R-OPTIONAL-ZERO", f"{f.qualname}: optional integer '{p}' is only tested with `is None`", nontrivial=False)
     ctx.floor("R-OPTIONAL-ZERO:optional-int-parameters", n, 2)
+
+
+def _element_truthiness(ctx: Ctx, f: FuncInfo, ps: List[ast.arg]) -> None:
+    """The same for the *elements* of a list-of-integers argument (givens of a square, costs, capacities): a value reached by iterating
+    such an argument down to its integers is a value of the model, 0 included; testing it for truth takes the value 0 for 'absent'."""
+    depth: Dict[str, int] = {}  # name -> number of list levels left above the integers
+    for p_ in ps:
+        ann = ast.unparse(p_.annotation).replace(" ", "") if p_.annotation is not None else ""
+        if ann.startswith("Optional[") and ann.endswith("]"):
+            ann = ann[9:-1]
+        k = 0
+        while ann.startswith("List[") and ann.endswith("]"):
+            ann = ann[5:-1]
+            k += 1
+        if k and ann == "int":
+            depth[p_.arg] = k
+    if not depth:
+        return
+    changed = True
+    while changed:
+        changed = False
+        for node in ast.walk(f.node):
+            pairs = []
+            if isinstance(node, ast.For):
+                pairs.append((node.target, node.iter))
+            for g in getattr(node, "generators", []) or []:
+                pairs.append((g.target, g.iter))
+            for tgt, it in pairs:
+                if isinstance(tgt, ast.Name) and isinstance(it, ast.Name) and depth.get(it.id, 0) >= 1 and tgt.id not in depth:
+                    depth[tgt.id] = depth[it.id] - 1
+                    changed = True
+    ints = {k_ for k_, d_ in depth.items() if d_ == 0}
+    if not ints:
+        return
+    for node in ast.walk(f.node):
+        tests: List[ast.expr] = []
+        if isinstance(node, (ast.If, ast.IfExp, ast.While)):
+            tests.append(node.test)
+        for g in getattr(node, "generators", []) or []:
+            tests.extend(g.ifs)
+        if isinstance(node, ast.BoolOp):
+            tests.extend(node.values[:-1] if isinstance(node.op, ast.Or) else node.values)
+        for t in tests:
+            while isinstance(t, ast.UnaryOp) and isinstance(t.op, ast.Not):
+                t = t.operand
+            if isinstance(t, ast.Name) and t.id in ints:
+                ctx.violation("R-OPTIONAL-ZERO", f.path, f.qualname, f"element-truthiness:{t.id}", f"{f.path}:{t.lineno}",
+                              f"{f.qualname} tests '{t.id}', an integer taken from a list-of-integers argument, for truth: the value 0 is a value of the "
+                              "model like any other (a given cell of colour 0) and is taken for 'absent' (the model translated so that a given "
+                              "becomes 0 loses that given: its solution set is no longer the translate of the original's)")
+    ctx.ok("R-OPTIONAL-ZERO", f"{f.qualname}: the integers of its list arguments ({', '.join(sorted(ints))}) are never tested for truth", nontrivial=False)
 
 
 def _assigned_before(fn: ast.FunctionDef, name: str, line: int) -> bool:
@@ -899,3 +989,189 @@ def rule_constants(ctx: Ctx, prog: Program, want: Tuple[str, ...] = ("events", "
             bad("stats:labels", f"the statistics labels are not {mx} distinct strings")
         else:
             ctx.ok("R-CONSTANTS", "statistics labels distinct", nontrivial=False)
+
+
+# ------------------------------------------------------------------------------------------ R-PROBLEM-READONLY / R-OPTIONAL-OVERRIDE
+MUTATORS_ = ("append", "extend", "insert", "pop", "remove", "clear", "sort", "reverse", "update", "setdefault", "__setitem__", "fill")
+
+
+def rule_problem_readonly(ctx: Ctx, prog: Program) -> None:
+    """A solver works on its own copies (the choice-point stacks, built from the problem when the search is (re)initialised).  The problem
+    object is the *model*: it can be given to further solvers, extended, re-solved.  Solver code that stores into the problem's lists or
+    arrays -- directly or through a local bound to one of them -- changes the model as a side effect of solving it (an objective bound
+    left in the domains after an optimisation: the next solve of the 'same' model sees a truncated one).  Rule: in the solvers package
+    nothing is stored through `self.problem` / a `problem` parameter; the only call that may change it is `problem.init()`."""
+    ctx.rule("R-PROBLEM-READONLY")
+    n = n_bad = 0
+    fields: Set[str] = set()  # what the model consists of: the attributes its own class (and subclasses) define
+    for f in prog.all_functions():
+        if f.cls and f.module.startswith(f"{prog.package}.problems"):
+            for node in ast.walk(f.node):
+                if isinstance(node, (ast.Assign, ast.AnnAssign, ast.AugAssign)):
+                    for t in (node.targets if isinstance(node, ast.Assign) else [node.target]):
+                        if isinstance(t, ast.Attribute) and isinstance(t.value, ast.Name) and t.value.id == "self":
+                            fields.add(t.attr)
+    if len(fields) < 5:
+        raise AnalysisError(f"R-PROBLEM-READONLY: only {len(fields)} model fields found in {prog.package}.problems")
+    for f in prog.all_functions():
+        if f.njit or not f.module.startswith(f"{prog.package}.solvers"):
+            continue
+        roots = {"self.problem", "problem"} if ("problem" in f.params or f.cls) else set()
+        if not roots:
+            continue
+
+        def rooted(e: ast.AST) -> bool:
+            cur = e
+            while isinstance(cur, (ast.Subscript, ast.Attribute)):
+                if ast.unparse(cur) in roots:
+                    return True
+                cur = cur.value
+            return ast.unparse(cur) in roots if isinstance(cur, (ast.Name, ast.Attribute)) else False
+
+        aliases: Set[str] = set()
+        for node in ast.walk(f.node):
+            if isinstance(node, ast.Assign) and len(node.targets) == 1 and isinstance(node.targets[0], ast.Name) \
+                    and isinstance(node.value, (ast.Subscript, ast.Attribute)) and rooted(node.value) and ast.unparse(node.value) not in roots:
+                aliases.add(node.targets[0].id)  # a list / row of the problem: a store through it is a store into the problem
+        n += 1
+        for node in ast.walk(f.node):
+            tg: List[ast.expr] = []
+            if isinstance(node, ast.Assign):
+                tg = list(node.targets)
+            elif isinstance(node, (ast.AugAssign, ast.AnnAssign)):
+                tg = [node.target]
+            elif isinstance(node, ast.Delete):
+                tg = list(node.targets)
+            bad = None
+            for t in tg:
+                for x in (t.elts if isinstance(t, ast.Tuple) else [t]):
+                    if isinstance(x, (ast.Subscript, ast.Attribute)) and (rooted(x.value) or (isinstance(x, ast.Subscript) and isinstance(x.value, ast.Name) and x.value.id in aliases)):
+                        if ast.unparse(x) == "self.problem":
+                            continue
+                        if isinstance(x, ast.Attribute) and ast.unparse(x.value) in roots and x.attr not in fields:
+                            continue  # an attribute the model does not define (a back-reference, a cache): not part of its meaning
+                        bad = x
+            if isinstance(node, ast.Call) and isinstance(node.func, ast.Attribute) and node.func.attr in MUTATORS_ \
+                    and (rooted(node.func.value) and ast.unparse(node.func.value) not in roots or (isinstance(node.func.value, ast.Name) and node.func.value.id in aliases)):
+                bad = node
+            if bad is not None:
+                n_bad += 1
+                ctx.violation("R-PROBLEM-READONLY", f.path, f.qualname, f"writes-problem:{ast.unparse(bad)[:40]}", f"{f.path}:{bad.lineno}",
+                              f"{f.qualname} stores into the problem it solves (`{ast.unparse(bad)[:70]}`): the model is changed as a side effect of solving it, so "
+                              "solving it again, extending it or giving it to another solver no longer addresses the model that was written down "
+                              "(e.g. the objective bound of a finished optimisation stays in the domains: the next minimize returns None)")
+    if not n_bad:
+        ctx.ok("R-PROBLEM-READONLY", "no solver code stores into the problem object (only problem.init() rebuilds its derived arrays)", sample={"functions": n})
+    ctx.floor("R-PROBLEM-READONLY:functions-with-a-problem", n, 3)
+
+
+def rule_optional_override(ctx: Ctx, prog: Program) -> None:
+    """An optional argument of the model API that the caller *did* give must be used: an assignment to such a parameter is the resolution
+    of 'not given' and has to sit under a test of that very parameter against None.  Assigned under a test of another parameter
+    (`if dom_indices_lst is None: ... dom_offsets_lst = [0] * n`) it silently discards what the caller passed."""
+    ctx.rule("R-OPTIONAL-ZERO")
+    n = 0
+    for f in prog.all_functions():
+        if f.njit or not (f.module.startswith(f"{prog.package}.problems") or f.module.startswith(f"{prog.package}.solvers")):
+            continue
+        a = f.node.args
+        opt = {p_.arg for p_ in a.posonlyargs + a.args + a.kwonlyargs
+               if p_.annotation is not None and (ast.unparse(p_.annotation).replace(" ", "").startswith("Optional[") or "|None" in ast.unparse(p_.annotation).replace(" ", ""))}
+        if not opt:
+            continue
+
+        def walk(stmts: List[ast.stmt], known_none: Set[str]) -> None:
+            nonlocal n
+            for st in stmts:
+                if isinstance(st, ast.If):
+                    t = st.test
+                    nm_t = nm_f = None
+                    if isinstance(t, ast.Compare) and len(t.ops) == 1 and isinstance(t.left, ast.Name) and isinstance(t.comparators[0], ast.Constant) and t.comparators[0].value is None:
+                        if isinstance(t.ops[0], ast.Is):
+                            nm_t = t.left.id
+                        elif isinstance(t.ops[0], ast.IsNot):
+                            nm_f = t.left.id
+                    walk(st.body, known_none | ({nm_t} if nm_t else set()))
+                    walk(st.orelse, known_none | ({nm_f} if nm_f else set()))
+                    continue
+                if isinstance(st, (ast.For, ast.While, ast.With, ast.Try)):
+                    for fld in ("body", "orelse", "finalbody"):
+                        walk(getattr(st, fld, []) or [], known_none)
+                    continue
+                if isinstance(st, ast.Assign):
+                    for tgt in st.targets:
+                        for x in (tgt.elts if isinstance(tgt, ast.Tuple) else [tgt]):
+                            if isinstance(x, ast.Name) and x.id in opt:
+                                n += 1
+                                v = st.value
+                                self_resolving = (isinstance(v, ast.IfExp) and any(isinstance(y, ast.Name) and y.id == x.id for y in ast.walk(v.test))) or \
+                                    (isinstance(v, ast.BoolOp) and isinstance(v.values[0], ast.Name) and v.values[0].id == x.id)
+                                if x.id in known_none or self_resolving:
+                                    ctx.ok("R-OPTIONAL-ZERO", f"{f.qualname}: '{x.id}' is given its default only when it is None", nontrivial=False)
+                                else:
+                                    ctx.violation("R-OPTIONAL-ZERO", f.path, f.qualname, f"given-argument-overwritten:{x.id}", f"{f.path}:{st.lineno}",
+                                                  f"{f.qualname} assigns its optional argument '{x.id}' (`{ast.unparse(st)[:60]}`) on a path where it has not been "
+                                                  "found to be None: a value the caller passed is silently replaced by the default (offsets given without "
+                                                  "domain indices are dropped: the model written with offsets differs from the same model written with "
+                                                  "translated domains)")
+        walk(f.node.body, set())
+    ctx.floor("R-OPTIONAL-ZERO:optional-parameter-assignments", n, 4)
+
+
+# ------------------------------------------------------------------------------------------ R-DECISION-COVER
+def rule_decision_cover(ctx: Ctx, prog: Program) -> None:
+    """The search reports a solution when *every* shared domain is a single value (is_solved scans the whole top level of the stack) and it
+    branches only on the decision domains.  With the decision set left to its default, 'all domains', nothing else instantiates a shared
+    domain no propagator happens to ground -- in particular the shared domains no variable refers to (add_variable always appends one,
+    a view leaves it unused).  A default that covers less than 0..shr_domain_nb-1 makes the search run out of decisions before is_solved
+    can hold: those solutions are never reported.  Rule: the value given to `decision_domains` when it is None is the full range over
+    the number of shared domains."""
+    ctx.rule("R-DECISION-COVER")
+    f = prog.func(f"{prog.package}.solvers.backtrack_solver", "BacktrackSolver.__init__")
+    if "decision_domains" not in f.params:
+        raise AnalysisError("BacktrackSolver.__init__ has no decision_domains parameter")
+    defaults: List[ast.expr] = []
+    for node in ast.walk(f.node):
+        if isinstance(node, ast.Assign) and any(isinstance(t, ast.Name) and t.id == "decision_domains" for t in node.targets):
+            v = node.value
+            if isinstance(v, ast.IfExp):
+                t = v.test
+                if isinstance(t, ast.Compare) and isinstance(t.left, ast.Name) and t.left.id == "decision_domains" and len(t.ops) == 1:
+                    defaults.append(v.body if isinstance(t.ops[0], ast.Is) else v.orelse)
+                    continue
+            if any(isinstance(y, ast.Name) and y.id == "decision_domains" for y in ast.walk(v)):
+                continue  # a normalisation of the given value (list(...), sorted(...)), not the default
+            defaults.append(v)
+    if not defaults:
+        raise AnalysisError("BacktrackSolver.__init__: no default for decision_domains found")
+    counts = {"problem.shr_domain_nb", "self.problem.shr_domain_nb", "len(problem.shr_domains_lst)", "len(self.problem.shr_domains_lst)"}
+
+    def strip(e: ast.expr) -> ast.expr:
+        while isinstance(e, ast.Call) and isinstance(e.func, ast.Name) and e.func.id in ("list", "sorted", "tuple") and len(e.args) == 1:
+            e = e.args[0]
+        return e
+    for d in defaults:
+        e = strip(d)
+        full = False
+        if isinstance(e, ast.Call) and ast.unparse(e.func) in ("range", "np.arange", "numpy.arange"):
+            a = e.args
+            if len(a) == 1 and ast.unparse(a[0]) in counts:
+                full = True
+            if len(a) == 2 and ast.unparse(a[0]) == "0" and ast.unparse(a[1]) in counts:
+                full = True
+        if isinstance(e, ast.ListComp) and len(e.generators) == 1 and not e.generators[0].ifs and isinstance(e.elt, ast.Name) \
+                and isinstance(e.generators[0].target, ast.Name) and e.elt.id == e.generators[0].target.id:
+            e2 = strip(e.generators[0].iter)
+            full = isinstance(e2, ast.Call) and ast.unparse(e2.func) == "range" and len(e2.args) == 1 and ast.unparse(e2.args[0]) in counts
+        if full:
+            ctx.ok("R-DECISION-COVER", f"the default decision set is `{ast.unparse(d)}`: every shared domain is_solved looks at is branched on")
+            continue
+        src = ast.unparse(d)
+        shifted_range = isinstance(e, ast.Call) and ast.unparse(e.func) in ("range", "np.arange", "numpy.arange") and any(c in src for c in counts)
+        if "dom_indices" in src or "variable_nb" in src or shifted_range or isinstance(e, (ast.List, ast.Constant)):
+            ctx.violation("R-DECISION-COVER", f.path, f.qualname, "default-not-all-domains", f"{f.path}:{d.lineno}",
+                          f"the default decision set is `{src[:70]}`, not the range over all shared domains: a shared domain outside it (one no variable refers to -- "
+                          "add_variable leaves one behind for every view -- or whatever the expression skips) is never branched on, is_solved never "
+                          "holds on a branch where no propagator grounds it, and the solutions of that branch are not reported")
+        else:
+            raise AnalysisError(f"R-DECISION-COVER: cannot classify the default decision set `{src[:80]}` ({f.path}:{d.lineno})")
